@@ -330,17 +330,29 @@ def list_names(fn: ast.AST) -> set:
                     binds.setdefault(x.id, []).append(None)
     args = getattr(fn, "args", None)
     params = {a.arg for a in (args.posonlyargs + args.args + args.kwonlyargs)} if args is not None else set()
-    return {k for k, vs in binds.items() if k not in params and vs and all(isinstance(v, (ast.List, ast.ListComp)) or (isinstance(v, ast.Call) and isinstance(v.func, ast.Name) and v.func.id == "list") for v in vs)}
+    def _seq(v):
+        if isinstance(v, (ast.List, ast.ListComp)):
+            return True
+        if isinstance(v, ast.Call) and isinstance(v.func, (ast.Name, ast.Attribute)) and ast.unparse(v.func).split(".")[-1] in ("list", "deque") and not v.keywords:
+            return len(v.args) == 0 or (len(v.args) == 1 and isinstance(v.args[0], (ast.List, ast.Tuple, ast.Name)))  # `deque([x])`: the same work list, popped from the left
+        return False
+
+    return {k for k, vs in binds.items() if k not in params and vs and all(v is not None and _seq(v) for v in vs)}
 
 
 def is_list_total(call: ast.Call, names: set, truthy=()) -> bool:
     """Operations on a local list that cannot raise: growing it, `reversed`/`len` of it, and `pop()` where the path has
     just tested the list to be non-empty (`while work:` / `if work:`; `truthy` = names known non-empty here)."""
     f = call.func
+    if isinstance(f, (ast.Name, ast.Attribute)) and ast.unparse(f).split(".")[-1] in ("deque", "list") and ast.unparse(f) in ("deque", "list", "collections.deque") and not call.keywords and len(call.args) <= 1 \
+            and all(isinstance(a, (ast.List, ast.Tuple)) and not any(isinstance(e, (ast.Starred, ast.Await, ast.Call)) for e in a.elts) for a in call.args):
+        return True  # `deque([x])`: building the work list from a display
     if isinstance(f, ast.Attribute) and isinstance(f.value, ast.Name) and f.value.id in names and not call.keywords:
-        if f.attr in ("append", "extend", "clear", "reverse", "copy") and all(not isinstance(a, ast.Await) for a in call.args):
+        if f.attr in ("append", "extend", "appendleft", "extendleft", "clear", "reverse", "copy") and all(not isinstance(a, ast.Await) for a in call.args):
             return all(isinstance(a, (ast.Name, ast.Constant, ast.List, ast.Tuple)) or (isinstance(a, ast.Call) and ast.unparse(a.func) in ("reversed", "list", "tuple") and all(isinstance(x, ast.Name) for x in a.args)) for a in call.args)
         if f.attr == "pop" and len(call.args) <= 1 and all(isinstance(a, ast.Constant) and a.value in (0, -1) for a in call.args):
+            return f.value.id in truthy
+        if f.attr == "popleft" and not call.args:
             return f.value.id in truthy
     return False
 
